@@ -51,6 +51,8 @@ pub enum Op {
     Policy(u8),
     Human(usize),
     Values(u64),
+    /// touch the three precomputed type tables through several entry points
+    TypeTables(u64),
     /// drop this thread's reference to shared program i (last-reference drops race)
     DropShared(usize),
 }
@@ -65,6 +67,9 @@ pub struct Plan {
     pub iterations: usize,
     /// for replay files: the failing schedule as persisted by shuttle
     pub schedule: Option<String>,
+    /// digests of every operation when the threads' op lists are run one after the other by a
+    /// single thread in a FRESH process (so that process-wide state is in its initial condition)
+    pub reference: Option<Vec<Vec<u64>>>,
 }
 
 fn op_json(o: &Op) -> Json {
@@ -82,6 +87,7 @@ fn op_json(o: &Op) -> Json {
         Op::Policy(k) => json!(["policy", k]),
         Op::Human(k) => json!(["human", k]),
         Op::Values(s) => json!(["values", s.to_string()]),
+        Op::TypeTables(s) => json!(["type_tables", s.to_string()]),
         Op::DropShared(i) => json!(["drop_shared", i]),
     }
 }
@@ -109,6 +115,7 @@ fn op_from(j: &Json) -> Option<Op> {
         "policy" => Op::Policy(u(1) as u8),
         "human" => Op::Human(u(1)),
         "values" => Op::Values(ju(&j[1])),
+        "type_tables" => Op::TypeTables(ju(&j[1])),
         "drop_shared" => Op::DropShared(u(1)),
         _ => return None,
     })
@@ -124,6 +131,7 @@ impl Plan {
             "sched_seed": self.sched_seed.to_string(),
             "iterations": self.iterations,
             "schedule": self.schedule,
+            "reference": self.reference.as_ref().map(|r| r.iter().map(|t| t.iter().map(|d| format!("{:016x}", d)).collect::<Vec<_>>()).collect::<Vec<_>>()),
         })
     }
     pub fn from_json(j: &Json) -> Plan {
@@ -148,6 +156,11 @@ impl Plan {
             sched_seed: ju(&j["sched_seed"]),
             iterations: (ju(&j["iterations"]) as usize).max(1),
             schedule: j["schedule"].as_str().map(|s| s.to_owned()),
+            reference: j["reference"].as_array().map(|a| {
+                a.iter()
+                    .map(|t| t.as_array().map(|o| o.iter().filter_map(|d| u64::from_str_radix(d.as_str()?, 16).ok()).collect()).unwrap_or_default())
+                    .collect()
+            }),
         }
     }
     fn hash(&self) -> u64 {
@@ -364,6 +377,79 @@ fn values_op(seed: u64) -> u64 {
     acc.0
 }
 
+fn final_digest(h: &mut Fnv, f: &simplicity::types::Final) {
+    // structure (bounded walk), width, padding and TMR
+    h.u64(f.bit_width() as u64);
+    h.u8(u8::from(f.has_padding()));
+    h.bytes(f.tmr().as_ref());
+    let mut stack = vec![(f, 0usize)];
+    let mut n = 0;
+    while let Some((t, d)) = stack.pop() {
+        n += 1;
+        if n > 200 {
+            break;
+        }
+        match t.bound() {
+            simplicity::types::CompleteBound::Unit => h.u8(1),
+            simplicity::types::CompleteBound::Sum(a, b) => {
+                h.u8(2);
+                h.u64(a.bit_width() as u64);
+                if d < 12 {
+                    stack.push((b, d + 1));
+                    stack.push((a, d + 1));
+                }
+            }
+            simplicity::types::CompleteBound::Product(a, b) => {
+                h.u8(3);
+                h.u64(b.bit_width() as u64);
+                if d < 12 {
+                    stack.push((b, d + 1));
+                    stack.push((a, d + 1));
+                }
+            }
+        }
+    }
+}
+
+fn type_tables_op(seed: u64) -> u64 {
+    use simplicity::types::Final;
+    let mut r = Rng::new(seed);
+    let mut h = Fnv::new();
+    for _ in 0..4 {
+        match r.below(5) {
+            0 => {
+                let n = r.usize_below(12);
+                final_digest(&mut h, &Final::two_two_n(n).unwrap());
+            }
+            1 => {
+                let n = r.usize_below(8);
+                if let Ok(t) = Final::buffer8_two_n_plus_one(n) {
+                    final_digest(&mut h, &t);
+                }
+            }
+            2 => final_digest(&mut h, &Final::ctx8()),
+            3 => {
+                let l = r.usize_below(64);
+                if let Ok(v) = Value::ctx8([r.byte(); 32], r.next_u64(), &r.bytes(l)) {
+                    final_digest(&mut h, v.ty());
+                    h.u64(v.compact_len() as u64);
+                    h.u8(u8::from(v.is_of_type(&Final::ctx8())));
+                }
+            }
+            _ => {
+                let n = r.usize_below(5);
+                let l = r.usize_below((2usize << n) - 1);
+                if let Ok(v) = Value::buffer8_two_n_plus_one(n, &r.bytes(l)) {
+                    final_digest(&mut h, v.ty());
+                    let bits: Vec<u8> = v.iter_compact().map(u8::from).collect();
+                    h.bytes(&bits);
+                }
+            }
+        }
+    }
+    h.0
+}
+
 fn ill_typed_op(kind: u8) -> u64 {
     type N<'a> = Arc<ConstructNode<'a>>;
     types::Context::with_context(|ctx| {
@@ -556,6 +642,7 @@ fn run_op(op: &Op, shared: &[Shared], mine: &mut [Option<Arc<RedeemNode>>]) -> u
         Op::Policy(k) => policy_op(*k),
         Op::Human(k) => human_op(*k),
         Op::Values(s) => values_op(*s),
+        Op::TypeTables(s) => type_tables_op(*s),
         Op::DropShared(i) => {
             if !mine.is_empty() {
                 let i = i % mine.len();
@@ -578,15 +665,14 @@ pub struct IterStats {
     pub mismatch: Option<String>,
 }
 
-fn scenario(plan: &Plan, stats: &Arc<StdMutex<IterStats>>) {
-    // fixtures: decoded once per execution by the main simulated thread
+/// Sequential execution of every thread's op list by one thread.
+fn sequential_digests(plan: &Plan) -> Vec<Vec<u64>> {
     let fixtures: Vec<Option<Arc<RedeemNode>>> =
         plan.shared.iter().map(|s| decode(s, &s.program, &s.witness).ok()).collect();
-    // sequential baseline (inside the execution: shuttle's primitives only work here)
-    let mut baseline: Vec<Vec<u64>> = Vec::new();
+    let mut res = Vec::new();
     for ops in &plan.threads {
         let mut mine = fixtures.clone();
-        baseline.push(
+        res.push(
             ops.iter()
                 .map(|op| {
                     shuttle::current::reset_step_count();
@@ -595,6 +681,35 @@ fn scenario(plan: &Plan, stats: &Arc<StdMutex<IterStats>>) {
                 .collect(),
         );
     }
+    res
+}
+
+/// Reference digests: the sequential execution in a single-threaded shuttle execution. Meant to
+/// be called in a fresh process (`c20 --reference-of FILE`).
+pub fn reference_main(path: &str) -> ! {
+    let text = std::fs::read_to_string(path).expect("plan file");
+    let plan = Plan::from_json(&serde_json::from_str(&text).expect("plan json"));
+    let d = in_shuttle(move || sequential_digests(&plan));
+    let j: Vec<Vec<String>> = d.iter().map(|t| t.iter().map(|x| format!("{:016x}", x)).collect()).collect();
+    println!("REFERENCE {}", serde_json::to_string(&j).unwrap());
+    std::process::exit(0)
+}
+
+fn scenario(plan: &Plan, stats: &Arc<StdMutex<IterStats>>, iteration: usize) {
+    // Mode A (even iterations): the main simulated thread decodes the shared programs once and
+    // hands references to the threads (the sharing discipline of the property).
+    // Mode B (odd iterations): nothing is touched before the threads start; every thread decodes
+    // its own copies, so first uses of process- or thread-wide state happen concurrently.
+    let fixtures: Vec<Option<Arc<RedeemNode>>> = if iteration % 2 == 0 {
+        plan.shared.iter().map(|s| decode(s, &s.program, &s.witness).ok()).collect()
+    } else {
+        Vec::new()
+    };
+    // expected digests: from a fresh sequential process when available, otherwise computed here
+    let baseline: Vec<Vec<u64>> = match &plan.reference {
+        Some(r) => r.clone(),
+        None => sequential_digests(plan),
+    };
     let baseline = Arc::new(baseline);
     let order: Arc<StdMutex<Vec<u16>>> = Arc::new(StdMutex::new(Vec::new()));
     let shared = Arc::new(plan.shared.clone());
@@ -606,6 +721,9 @@ fn scenario(plan: &Plan, stats: &Arc<StdMutex<IterStats>>) {
         let order = Arc::clone(&order);
         let shared = Arc::clone(&shared);
         handles.push(shuttle::thread::spawn(move || {
+            if mine.is_empty() {
+                mine = shared.iter().map(|s| decode(s, &s.program, &s.witness).ok()).collect();
+            }
             for (k, op) in ops.iter().enumerate() {
                 let d = run_op(op, &shared, &mut mine);
                 // an operation finished: progress was made, so the step bound (livelock detector)
@@ -614,7 +732,7 @@ fn scenario(plan: &Plan, stats: &Arc<StdMutex<IterStats>>) {
                 order.lock().unwrap().push(t as u16);
                 if d != baseline[t][k] {
                     panic!(
-                        "C20 digest mismatch: thread {} op {} {} gave {:016x} concurrently, {:016x} sequentially",
+                        "C20 digest mismatch: thread {} op {} {} gave {:016x} concurrently, {:016x} in the sequential reference",
                         t,
                         k,
                         op_json(op),
@@ -727,7 +845,7 @@ fn gen_plan(r: &mut Rng, tier: Tier, out: &mut RunOut) -> Plan {
     let shared = gen_shared(r, out);
     let wide = r.chance(1, 8);
     let n_threads = if wide { r.urange(8, 16) } else { r.urange(2, 4) };
-    let mut w: [u32; 14] = [5, 3, 3, 5, 4, 4, 6, 5, 4, 3, 2, 2, 3, 4];
+    let mut w: [u32; 15] = [5, 3, 3, 5, 4, 4, 6, 5, 4, 3, 2, 2, 3, 4, 4];
     for x in w.iter_mut() {
         if r.chance(1, 5) {
             *x = 0;
@@ -756,7 +874,8 @@ fn gen_plan(r: &mut Rng, tier: Tier, out: &mut RunOut) -> Plan {
                 10 => Op::Policy(r.byte()),
                 11 => Op::Human(r.usize_below(8)),
                 12 => Op::Values(r.next_u64()),
-                _ => Op::DropShared(r.usize_below(ns)),
+                13 => Op::DropShared(r.usize_below(ns)),
+                _ => Op::TypeTables(r.next_u64()),
             });
         }
         threads.push(ops);
@@ -773,6 +892,7 @@ fn gen_plan(r: &mut Rng, tier: Tier, out: &mut RunOut) -> Plan {
         sched_seed: r.next_u64(),
         iterations: tier.pick(12, 40),
         schedule: None,
+        reference: None,
     }
 }
 
@@ -785,6 +905,31 @@ fn panic_text(p: Box<dyn std::any::Any + Send>) -> String {
         s.clone()
     } else {
         "<non-string panic>".to_owned()
+    }
+}
+
+/// Run the plan's op lists sequentially in a fresh process and return the digests.
+fn fresh_process_reference(plan: &Plan) -> Result<Vec<Vec<u64>>, String> {
+    let path = std::env::temp_dir().join(format!("vshuttle-ref-{}-{:016x}.json", std::process::id(), plan.hash()));
+    let mut p = plan.clone();
+    p.schedule = None;
+    std::fs::write(&path, p.to_json().to_string()).map_err(|e| format!("write plan: {}", e))?;
+    let exe = std::env::current_exe().map_err(|e| e.to_string())?;
+    let out = std::process::Command::new(exe).arg("--reference-of").arg(&path).output().map_err(|e| e.to_string());
+    let _ = std::fs::remove_file(&path);
+    let out = out?;
+    let text = String::from_utf8_lossy(&out.stdout);
+    let line = text.lines().find_map(|l| l.strip_prefix("REFERENCE "));
+    match line {
+        Some(l) if out.status.success() => {
+            let j: Vec<Vec<String>> = serde_json::from_str(l).map_err(|e| e.to_string())?;
+            Ok(j.iter().map(|t| t.iter().filter_map(|d| u64::from_str_radix(d, 16).ok()).collect()).collect())
+        }
+        _ => {
+            let err = String::from_utf8_lossy(&out.stderr);
+            let tail: String = err.chars().rev().take(400).collect::<String>().chars().rev().collect();
+            Err(format!("sequential reference run in a fresh process failed ({:?}): {}", out.status, tail))
+        }
     }
 }
 
@@ -818,10 +963,28 @@ impl C20 {
         let dir = std::env::temp_dir().join(format!("vshuttle-{}-{}", std::process::id(), plan.hash()));
         let _ = std::fs::create_dir_all(&dir);
         let cfg = shuttle_config(&dir);
+        // reference digests from a fresh sequential process (unless the plan carries them)
+        let mut plan_with_ref = plan.clone();
+        if plan_with_ref.reference.is_none() {
+            match fresh_process_reference(plan) {
+                Ok(r) => plan_with_ref.reference = Some(r),
+                Err(msg) => {
+                    out.eval(plan.hash(), false);
+                    out.violation("reference-run-failed", "sequential-reference", msg, || plan.to_json());
+                    let _ = std::fs::remove_dir_all(&dir);
+                    return;
+                }
+            }
+        }
+        let plan = &plan_with_ref;
         let p = Arc::new(plan.clone());
         let st2 = Arc::clone(&stats);
+        let counter = Arc::new(std::sync::atomic::AtomicUsize::new(0));
         let result = std::panic::catch_unwind(std::panic::AssertUnwindSafe(|| {
-            let f = move || scenario(&p, &st2);
+            let f = move || {
+                let it = counter.fetch_add(1, std::sync::atomic::Ordering::Relaxed);
+                scenario(&p, &st2, it)
+            };
             if let Some(s) = &plan.schedule {
                 // same configuration as the search (shuttle::replay would use a 60 KiB stack)
                 let sch = ReplayScheduler::new_from_encoded(s);
@@ -912,7 +1075,7 @@ impl Engine for C20 {
         })
     }
     fn n_runs(&self, tier: Tier) -> u64 {
-        tier.pick(400, 12_000)
+        tier.pick(200, 12_000)
     }
     fn worker_stack(&self) -> usize {
         64 << 20
